@@ -761,6 +761,15 @@ coap_ws_read(coap_session_t *session, uint8_t *data, size_t datalen) {
   }
 
   /* Get in (remaining) data */
+  if (session->ws->data_size > datalen) {
+    /*
+     * The frame in progress does not fit into the buffer of this caller
+     * (coap_ws_close() draining the socket into its small buffer, possibly
+     * after the frame has been refused with 1009).
+     */
+    errno = ENOMEM;
+    return -1;
+  }
   ret = session->sock.lfunc[COAP_LAYER_WS].l_read(session,
                                                   &data[session->ws->data_ofs],
                                                   session->ws->data_size - session->ws->data_ofs);
